@@ -114,3 +114,13 @@ contract(
     doc="[bounded only] migration (thread pool + partial application: outside the verifier's reach): every migrated object is filed "
         "under the digest of its own bytes under the DESTINATION's algorithm",
 )
+
+contract(
+    "dvc_data.hashfile.build:_build_tree",
+    params={},
+    assumed=True, verify=False,
+    bounded=("bounded/roundtrip.py", 120, 2000),
+    props=["C02"],
+    doc="[bounded only] the end-to-end clause: stage -> transfer -> check out (object-level and index-level, every link type, both store "
+        "classes, state on/off) recreates the relative paths and bytes; the reloaded listing, file count and size match",
+)
